@@ -20,7 +20,7 @@ def decRow (sch : List FieldDef) (bs : Bytes) : Option Vals :=
 /-- the column definition a row of `sys_schema` holds -/
 def fieldOf (m : Vals) : Option FieldDef :=
   match get m "field_name", get m "field_length", get m "field_type" with
-  | .str n, .int len, .int ty => some ⟨nameOfBytes n, typeOfCode ty, len⟩
+  | .str n, .int len, .int ty => if !knownTypeCode ty then none else some ⟨nameOfBytes n, typeOfCode ty, len⟩
   | _, _, _ => none
 
 /-- the column definitions of table `name` as the live rows of `sys_schema` give them (`none` if a
@@ -33,7 +33,9 @@ def schemaOf (sch : Levels) (name : Bytes) : Option (List FieldDef) :=
 /-- the second loop body of `getRelationSchema` -/
 def schemaField (m : Vals) : SM FieldDef :=
   match get m "field_name", get m "field_length", get m "field_type" with
-  | .str n, .int len, .int ty => pure (⟨nameOfBytes n, typeOfCode ty, len⟩ : FieldDef)
+  | .str n, .int len, .int ty =>
+    if !knownTypeCode ty then unmodelledS "getRelationSchema: field type the engine does not know"
+    else pure (⟨nameOfBytes n, typeOfCode ty, len⟩ : FieldDef)
   | _, _, _ => panicS "getRelationSchema: type assertion"
 
 theorem relationSchema_eq (name : Bytes) :
@@ -52,9 +54,14 @@ theorem schemaField_spec (m : Vals) (fd : FieldDef) (s : Store) (h : fieldOf m =
   unfold schemaField
   split at h
   · rename_i n len ty h1 h2 h3
-    simp only [Option.some.injEq] at h
-    rw [h1, h2, h3, ← h]
-    rfl
+    rw [h1, h2, h3]
+    simp only
+    split at h
+    · cases h
+    · rename_i hk
+      simp only [Option.some.injEq] at h
+      rw [if_neg hk, ← h]
+      rfl
   · cases h
 
 theorem decodeRow_spec (sch : List FieldDef) (bs : Bytes) (m : Vals) (s : Store) (h : decRow sch bs = some m) :
